@@ -342,6 +342,24 @@ def typing_rules(ck, c):
         ok = len(hs) == 1 and len(pp) == 1 and len(pe) == 1 and f.dominates(hs[0]["bb"], pp[0][0]) and all(b in f.reach_from([pe[0][0]]) for b in [hs[0]["bb"]])
         ck.ob("DOM", f.path, "results-popped-then-height-checked-then-frame-popped", ok,
               "pop_ctrl pops the frame's result, rejects unless the operand stack is back at the frame's height, and only then removes the frame", f.loc())
+    # who may shorten the operand and control stacks: operands leave the stack through pop_opd (one at a time, never below the
+    # frame base) and through mark_unreachable (down to the frame base); frames leave through pop_ctrl. Any other
+    # truncation forgives operands that the closing `end`/`else` is required to find gone
+    short = set()
+    for p0 in sorted(c.paths()):
+        if not p0.startswith(W + "::validate"):
+            continue
+        for b in c.get_all(p0):
+            g = Fn(b)
+            for (bi, t) in g.calls(r"Vec::<T, A>::(truncate|clear|drain|pop|split_off|resize|retain|remove|swap_remove|set_len)$"):
+                o = g.origins(t["args"][0], deep=True)
+                for fld in ("opds", "ctrls"):
+                    if ("field", fld) in o:
+                        short.add((re.sub(r"::\{closure#\d+\}", "", p0).split("::")[-1], t["f"]["name"], fld))
+    want = {("pop_opd", "pop", "opds"), ("mark_unreachable", "truncate", "opds"), ("mark_unreachable", "truncate", "ctrls"), ("pop_ctrl", "pop", "ctrls")}
+    ck.ob("WHO", S[:-2], "stacks-shortened-only-by-their-primitives", short == want,
+          "operands leave through pop_opd/mark_unreachable, frames through pop_ctrl" if short == want else
+          "the validation stacks are also shortened by %s (missing: %s)" % (sorted(short - want), sorted(want - short)), "")
     # mark_unreachable
     f = getfn(ck, "sc", W, S + "mark_unreachable")
     if f:
